@@ -673,6 +673,7 @@ func vc02DrawExch(t *rapid.T, env *vc02Env, focus string, prev *vc02Exch) (e *vc
 	}
 
 	e.script = vc02ref.DrawUpAnswer(t, e.qt)
+	vc02ref.BiasHints(t, &e.script, e.who.eff, e.qt)
 
 	req := &dns.Msg{}
 	req.Id = uint16(rapid.IntRange(0, 65535).Draw(t, "id"))
@@ -847,6 +848,10 @@ func vc02Judge(t *rapid.T, env *vc02Env, e *vc02Exch) (classes []string, nt stri
 		replaced = upNonEmpty
 	case vc02ref.ONone:
 		classes = append(classes, "resp-verdict-"+gotResp.Kind.String())
+		if eff.LaterHintDecides(e.sent[0]) {
+			classes = append(classes, "https-answer-second-hint-decides")
+		}
+
 		if gotResp.Kind == vc02ref.OBlocked {
 			blockedShape()
 			classes = append(classes, "blocked-by-response")
@@ -920,7 +925,7 @@ func TestVerifC02Shape(t *testing.T) {
 		"flag-off-hides-slot", "safety-verdict", "later-question-on-same-stack", "same-question-other-requester", "same-question-other-requester-blocked",
 		"identical-repeat", "near-miss-qtype", "near-miss-host", "concurrent-request", "concurrent-same-question-blocked", "edge-host-root-or-tld",
 		"own-allow-equals-shared-allow-with-safety-match", "self-rewrite-target-queried-mixed-case", "case-variant-pair-compared",
-		"blocked-aaaa-with-ipv4-mapped-custom-address", "rewrite-aaaa-ipv4-mapped")
+		"blocked-aaaa-with-ipv4-mapped-custom-address", "rewrite-aaaa-ipv4-mapped", "https-answer-second-hint-decides")
 	st.Finish(t)
 
 	base := t.TempDir()
